@@ -49,7 +49,31 @@ type c16World struct {
 	accepted        int
 	events          []string
 	closeReturnedAt int // len(events) when Close returned (-1 = not yet)
+	// holdDial: the server's outbound dial for a TCP request stays pending (no response is written)
+	// until the flag is cleared or the connection dies (scenario kill-while-tcp-awaits-response)
+	holdDial bool
+	lossKind int // kind chosen by the last killCurrent
 }
+
+// c16TransportClosedError models what quic-go reports on a connection whose LOCAL socket failed
+// (the PacketConn obtained from the ConnFactory was closed or its read loop got an error):
+// transport.go's unexported errTransportClosed - NOT one of the exported connection-level error
+// types, unwrapping to net.ErrClosed and the cause. Added after the independently seeded change
+// C16-12 (a response-read error was reported as a closed connection only when it was one of
+// quic-go's exported error types).
+type c16TransportClosedError struct{ err error }
+
+func (e *c16TransportClosedError) Unwrap() []error { return []error{net.ErrClosed, e.err} }
+func (e *c16TransportClosedError) Error() string {
+	return fmt.Sprintf("quic: transport closed: %s", e.err)
+}
+func (e *c16TransportClosedError) Is(target error) bool {
+	_, ok := target.(*c16TransportClosedError)
+	return ok
+}
+
+// c16LossKinds: the ways quic-go reports a dead connection to the client side.
+const c16LossKinds = 5
 
 func (w *c16World) ev(format string, a ...any) {
 	w.events = append(w.events, fmt.Sprintf(format, a...))
@@ -115,6 +139,9 @@ func (w *c16World) serverUp() {
 						if _, err := protocol.ReadTCPRequest(str); err != nil {
 							return false, err
 						}
+						// the outbound dial is pending: nothing is answered until it completes
+						// or the connection is gone
+						w.e.Point("env", func() bool { return !w.holdDial || conn.IsClosed() }, "server outbound dial pending")
 						_ = protocol.WriteTCPResponse(str, true, "ok")
 						return true, nil
 					},
@@ -140,7 +167,10 @@ func (w *c16World) killCurrent() bool {
 			// "reconnect on loss", whatever way quic-go reports the loss (cost-free choice; added
 			// after the independently seeded change C16-7: errors whose Temporary() is true - a
 			// stateless reset is one - were no longer classified as a closed connection)
-			switch k := w.e.Choose(4, vsched.KFree, "loss-kind"); k {
+			// kind 4 = failure of the client's own socket (added after the independently seeded
+			// change C16-12, see c16TransportClosedError)
+			w.lossKind = w.e.Choose(c16LossKinds, vsched.KFree, "loss-kind")
+			switch w.lossKind {
 			case 0:
 				conns[i].Kill() // idle timeout
 			case 1:
@@ -149,6 +179,8 @@ func (w *c16World) killCurrent() bool {
 				conns[i].KillWith(&quic.TransportError{ErrorCode: 0x1, ErrorMessage: "internal error", Remote: true})
 			case 3:
 				conns[i].KillWith(&quic.ApplicationError{ErrorCode: 0x10c, ErrorMessage: "server shutting down", Remote: true})
+			case 4:
+				conns[i].KillWith(&c16TransportClosedError{err: errors.New("read udp: i/o error")})
 			}
 			w.ev("kill conn%d", i)
 			return true
@@ -583,6 +615,63 @@ func c16Scenarios() []*explore.Scenario {
 				_ = u.Close()
 			})
 			wg.Wait()
+			w.finalChecks(rc, false)
+			w.teardown(rc)
+		}},
+		{Name: "kill-while-tcp-awaits-response(loss-kind 0..4 incl. local socket failure)", Quick: explore.Bounds{P: 1}, Thorough: q2, Body: func(e *vsched.Exec) {
+			// Dimension: the MOMENT of loss - the connection dies while a non-fast-open TCP() is
+			// blocked waiting for the server's response (stream opened, request written, the
+			// server's outbound dial still pending) - x the loss kinds of killCurrent (cost-free
+			// choice "loss-kind"), which now include a failure of the client's own socket. Clauses:
+			// the blocked call reports a closed-connection error, the NEXT call re-evaluates the
+			// configuration, obtains exactly one new socket and reports count 2.
+			// Added after the independently seeded change C16-12 (TCP() wrapped an error of the
+			// response read in ClosedError only when it was one of quic-go's exported error types:
+			// with the unexported transport-closed error the call returned a raw error, the wrapper
+			// kept the dead client and the next call failed again without evaluating the config).
+			w := c16NewWorld(e)
+			w.holdDial = true
+			w.serverUp()
+			rc, err := w.newRC(true)
+			if err != nil {
+				e.Fail("NewReconnectableClient: %v", err)
+				return
+			}
+			var wg vsync.WaitGroup
+			var res []*c16Res
+			wg.Add(1)
+			vsched.GoNamed("caller", func() {
+				defer wg.Done()
+				res = append(res, w.call(rc, "TCP")) // blocks: the server does not answer
+				w.holdDial = false
+				res = append(res, w.call(rc, "TCP"), w.call(rc, "UDP"))
+			})
+			e.WaitIdle() // the caller is blocked in the response read, the server in its dial
+			if len(res) != 0 || w.cfgCalls != 1 || len(w.socks) != 1 {
+				e.Fail("harness: the first TCP() is not blocked on the first connection (returned=%d configFunc=%d factory.New=%d)", len(res), w.cfgCalls, len(w.socks))
+			}
+			if !w.killCurrent() {
+				e.Fail("harness: no live connection to kill")
+			}
+			w.ev("loss-kind=%d", w.lossKind)
+			wg.Wait()
+			if len(res) == 3 {
+				if cls := c16ErrClass(res[0].Err); cls != "ClosedError" {
+					e.Fail("TCP() blocked waiting for the server's response when the connection was lost: got %s (%v), want a closed-connection error", cls, res[0].Err)
+				}
+				for i, r := range res[1:] {
+					if r.Err != nil {
+						e.Fail("call %d (%s) after the connection was lost under a pending TCP(): %s (%v), want a transparent reconnect", i+1, r.Kind, c16ErrClass(r.Err), r.Err)
+					}
+				}
+				// the call right after the failed one re-evaluated the configuration
+				if res[1].End-res[1].Start < 2 || !strings.HasPrefix(w.events[res[1].Start+1], "configFunc#2") {
+					e.Fail("the call after the loss did not re-evaluate the configuration: %v", w.events[res[1].Start:res[1].End])
+				}
+			}
+			if len(w.socks) != 2 || w.cfgCalls != 2 || fmt.Sprint(w.connected) != "[1 2]" {
+				e.Fail("reconnect after loss under a pending TCP(): configFunc=%d factory.New=%d connected=%v, want 2, 2, [1 2]", w.cfgCalls, len(w.socks), w.connected)
+			}
 			w.finalChecks(rc, false)
 			w.teardown(rc)
 		}},
